@@ -127,6 +127,17 @@ def run(chk):
                 for ps, pl in ((False, False), (True, True)):
                     combos.append((dtname, comp, target, ps, pl))
     rng = __import__("random").Random(chk.seed)
+
+    def nested_with_gap(c):
+        """A long row enclosing later rows that are separated by a gap wide enough for the rechunker to cut at (>= 3 units)."""
+        rows = c["rows"]
+        for i in range(len(rows)):
+            inner = [r for r in rows[i + 1:] if r[0] < rows[i][1]]
+            ends = [rows[i][0]] + [r[1] for r in inner]
+            if any(r[0] - max(ends[:k + 1]) >= 3 or (k > 0 and r[0] - inner[k - 1][1] >= 3) for k, r in enumerate(inner)):
+                return True
+        return False
+    special = [c for c in cases if nested_with_gap(c)]
     if quick:
         cases = [c for c in cases if rng.random() < 0.5]
     work = [(c, combos[(i * 7 + len(c["rows"])) % len(combos)], chk.seed * 100003 + i) for i, c in enumerate(cases)]
@@ -134,6 +145,12 @@ def run(chk):
     for c in cases[:: max(1, len(cases) // (4 if quick else 20))]:
         for cb in combos:
             work.append((c, cb, chk.seed + len(work)))
+    # streams in which a long row encloses later rows separated by a cuttable gap: every rechunk target (the cut candidates of the
+    # rechunker depend on the latest end seen so far, not on the previous row)
+    for c in (special if not quick else special[:: max(1, len(special) // 150)]):
+        for target in (1, 2, 3):
+            work.append((c, ("time_endtime" if "time_endtime" in DTYPES else list(DTYPES)[0], "blosc", target, False, False), chk.seed + len(work)))
+    chk.extra["nested_row_streams"] = len(special)
     roundtrip(work[0])
     res = V.pmap(roundtrip, work)
     traces = []
